@@ -55,6 +55,10 @@ const (
 
 const (
 	defaultNATMappingLifeTime = 30 * time.Second
+
+	// dynamic port range used for the external side of NAPT mappings.
+	natPortRangeStart = 0xC000
+	natPortRangeSize  = 0x10000 - natPortRangeStart
 )
 
 // NATType has a set of parameters that define the behavior of NAT.
@@ -197,14 +201,18 @@ func (n *networkAddressTranslator) translateOutbound(from Chunk) (Chunk, error) 
 			mapp := n.findOutboundMapping(oKey)
 			if mapp == nil {
 				// Create a new mapping
-				mappedPort := 0xC000 + n.udpPortCounter
-				n.udpPortCounter++
+				mapped, ok := n.allocateMappedAddr()
+				if !ok {
+					n.log.Warnf("[%s] drop outbound chunk %s: no external port is free", n.name, from.String())
+
+					return nil, nil // nolint:nilnil
+				}
 
 				mapp = &mapping{
 					proto:   from.SourceAddr().Network(),
 					local:   from.SourceAddr().String(),
 					bound:   bound,
-					mapped:  fmt.Sprintf("%s:%d", n.mappedIPs[0].String(), mappedPort),
+					mapped:  mapped,
 					filters: map[string]struct{}{},
 					expires: time.Now().Add(n.natType.MappingLifeTime),
 				}
@@ -298,6 +306,23 @@ func (n *networkAddressTranslator) translateInbound(from Chunk) (Chunk, error) {
 	}
 
 	return nil, errNonUDPTranslationNotSupported
+}
+
+// allocateMappedAddr picks the next external address whose port is inside the
+// dynamic range and not held by a live mapping.
+// caller must hold the mutex.
+func (n *networkAddressTranslator) allocateMappedAddr() (string, bool) {
+	for i := 0; i < natPortRangeSize; i++ {
+		mappedPort := natPortRangeStart + n.udpPortCounter%natPortRangeSize
+		n.udpPortCounter = (n.udpPortCounter + 1) % natPortRangeSize
+
+		mapped := fmt.Sprintf("%s:%d", n.mappedIPs[0].String(), mappedPort)
+		if n.findInboundMapping(fmt.Sprintf("udp:%s", mapped)) == nil {
+			return mapped, true
+		}
+	}
+
+	return "", false
 }
 
 // caller must hold the mutex.
